@@ -136,7 +136,9 @@ func judge(c *core.Case, mc *muCase, d *driver, log []event) {
 			found, wrong := false, ""
 			for _, p := range pres {
 				if p.typ == "error" && r.haveReq && p.id == r.reqID && p.t < r.tRet {
-					if p.cond == r.cond {
+					if p.cond == r.cond || strings.HasPrefix(p.cond, "!") {
+						// (an answer whose <error/> is empty or undecodable may come back
+						// as a stanza error without a condition)
 						found = true
 					} else {
 						wrong = p.cond
@@ -159,6 +161,17 @@ func judge(c *core.Case, mc *muCase, d *driver, log []event) {
 				c.Count(kind+"_cancelled", 1)
 			}
 		default:
+			malformed := false
+			for _, p := range pres {
+				if p.typ == "error" && r.haveReq && p.id == r.reqID && p.t < r.tRet && strings.HasPrefix(p.cond, "!") {
+					malformed = true
+				}
+			}
+			if malformed {
+				// the room's answer was an error that cannot be decoded: any error will do
+				c.Count(kind+"_undecodable_room_error_reported", 1)
+				break
+			}
 			c.Violate("muc:"+kind+":spurious-error", "%s #%d for %s returned %q: neither nil, nor the room's stanza error, nor the context's error", what, r.n, r.addr, r.text)
 		}
 	}
@@ -340,6 +353,12 @@ func judge(c *core.Case, mc *muCase, d *driver, log []event) {
 	}
 	known := map[string]bool{}
 	nBare := 0
+	if d.w.noInviteCB {
+		// nobody to deliver to: the invitations are dropped, and the session goes
+		// on (the barriers and the calls after them show that)
+		c.Count("invitations_sent_to_a_client_without_callback", len(d.invites))
+		finalDone = false
+	}
 	for _, iv := range d.invites {
 		if iv.Bare {
 			nBare++
